@@ -245,6 +245,7 @@ CHECKS["C16"] = {
         J("wire", "c16", "TestWire", 600, 10000, 2),
         J("retryafterset", "c16", "TestRetryAfterSet", 800, 10000, 2),
         J("defaults-as-written", "c16", "TestStaticDefaultsAsWritten", None, None),
+        J("command-line-values", "c16", "TestStaticCommandLineValues", None, None),
         J("fuzz-value", "c16", "FuzzValue", None, None, tiers=["thorough"], fuzz={"target": "FuzzValue", "time": {"quick": "10s", "thorough": "120s"}}, timeout={"thorough": 900}),
     ],
     "assumptions": [
